@@ -54,6 +54,10 @@ fn main() {
         }
         ("C01", None) => checks::c01::run(&ctx),
         ("C01", Some(r)) => checks::c01::replay(&ctx, &r["case"]),
+        ("C10DBG", _) => {
+            checks::c10b::debug(&args);
+            std::process::exit(0);
+        }
         ("C17DBG", _) => {
             checks::c17b::debug(&args);
             std::process::exit(0);
